@@ -77,7 +77,7 @@ fn decode(st: &mut St, bytes: &[u8]) {
     }
 }
 
-fn run_seed(seed: u64, thorough: bool, st: &mut St) -> (&'static str, String) {
+fn run_seed(seed: u64, thorough: bool, block: usize, st: &mut St) -> (&'static str, String) {
     let mut r = Rng::new(seed);
     match seed % 4 {
         0 => {
@@ -95,7 +95,7 @@ fn run_seed(seed: u64, thorough: bool, st: &mut St) -> (&'static str, String) {
         }
         1 => {
             let mut first = String::new();
-            for k in 0..4096 {
+            for k in 0..block {
                 let i = match r.below(4) {
                     0 => r.next() as u32,
                     1 => (r.next() as u32) >> r.below(32),
@@ -115,7 +115,7 @@ fn run_seed(seed: u64, thorough: bool, st: &mut St) -> (&'static str, String) {
                 }
                 roundtrip(st, ent(i, g), &trailing);
             }
-            ("roundtrip-random", format!("4096 random identifiers, first: {first}"))
+            ("roundtrip-random", format!("{block} random identifiers, first: {first}"))
         }
         2 => {
             // exhaustive byte strings by first byte
@@ -138,7 +138,7 @@ fn run_seed(seed: u64, thorough: bool, st: &mut St) -> (&'static str, String) {
         }
         _ => {
             let mut first = String::new();
-            for k in 0..4096 {
+            for k in 0..block {
                 let bytes: Vec<u8> = if r.below(2) == 0 {
                     // mutate a valid encoding
                     let mut buf = Vec::new();
@@ -178,7 +178,7 @@ fn run_seed(seed: u64, thorough: bool, st: &mut St) -> (&'static str, String) {
                 }
                 decode(st, &bytes);
             }
-            ("bytes-random", format!("4096 random/mutated byte strings <= 12 bytes, first: {first}"))
+            ("bytes-random", format!("{block} random/mutated byte strings <= 12 bytes, first: {first}"))
         }
     }
 }
@@ -189,7 +189,7 @@ fn main() {
     let thorough = args.get("--tier") == Some("thorough");
     if let Some(seed) = args.get("--replay") {
         let mut st = St { errs: vec![], n_rt: 0, n_bytes: 0, ok_decodes: 0, err_decodes: 0 };
-        let (k, d) = run_seed(seed.parse().unwrap(), true, &mut st);
+        let (k, d) = run_seed(seed.parse().unwrap(), true, args.num("--block", 4096), &mut st);
         println!("{k}: {d}");
         for e in &st.errs {
             println!("VIOLATION [C15]: {e}");
@@ -201,10 +201,11 @@ fn main() {
     let to: u64 = args.num("--to", 0);
     let out = args.get("--out").expect("--out").to_string();
     let replay_dir = args.get("--replay-dir").unwrap_or("/verif/replays").to_string();
+    let block: usize = args.num("--block", 4096);
     let mut res = ShardResult::default();
     for seed in from..to {
         let mut st = St { errs: vec![], n_rt: 0, n_bytes: 0, ok_decodes: 0, err_decodes: 0 };
-        let (kind, desc) = run_seed(seed, thorough, &mut st);
+        let (kind, desc) = run_seed(seed, thorough, block, &mut st);
         res.runs += st.n_rt + st.n_bytes;
         *res.configs.entry(kind.to_string()).or_default() += 1;
         res.obs.add("round_trips", st.n_rt);
